@@ -159,6 +159,19 @@ func (l *evLog) add(e map[string]interface{}) { l.mu.Lock(); l.evs = append(l.ev
 
 var errCallback = errors.New("verif callback error")
 
+// callbackError: what a failing Authenticate / Register callback returns varies with the script — a plain
+// error, or one that wraps the context errors a cancelled or timed-out downstream lookup would produce
+// (the server's own context is not over: the failure is the callback's and is handled like any other)
+func callbackError(k int) error {
+	switch k % 3 {
+	case 0:
+		return fmt.Errorf("lookup interrupted: %w", context.Canceled)
+	case 2:
+		return fmt.Errorf("lookup timed out: %w", context.DeadlineExceeded)
+	}
+	return errCallback
+}
+
 func toEnc(l []string) []lime.SessionEncryption {
 	out := make([]lime.SessionEncryption, len(l))
 	for i, x := range l {
